@@ -105,6 +105,12 @@ type Record2 struct {
 	N     int
 }
 
+// Box is generic: wherever the generated code names an instantiation it has to carry the type arguments.
+type Box[T any] struct {
+	V T
+	N int
+}
+
 // InnerTwin has the same underlying type as Inner (convertible, not assignable).
 type InnerTwin Inner
 
@@ -382,6 +388,17 @@ import (
 	"example.com/m/tr"
 )
 
+// LBox / LPair are generic (see ext.Box).
+type LBox[T any] struct {
+	V T
+	N int
+}
+
+type LPair[K comparable, V any] struct {
+	Key K
+	Val V
+}
+
 type LInt int
 type LStr string
 type LFlt float64
@@ -565,6 +582,9 @@ var Alphabet = []TypeAtom{
 	{"ext.WithAnon", "WithAnon", "struct-imported-anon-member"},
 	{"ext.WithAnon2", "WithAnon2", "struct-imported-anon-member"},
 	{"ext.Cat", "Cat", "struct-imported"},
+	{"LBox[int]", "", "struct-local-generic"},
+	{"ext.Box[int]", "Box[int]", "struct-imported-generic"},
+	{"[]LPair[string, int]", "", "slice-struct-generic"},
 	{"[]int", "[]int", "slice-basic"},
 	{"[]string", "[]string", "slice-basic"},
 	{"[]int64", "[]int64", "slice-basic"},
